@@ -364,6 +364,9 @@ class Program:
     def _check_unmodelled(self):
         for m in self.modules.values():
             for n in ast.walk(m.tree):
+                if isinstance(n, ast.Call) and isinstance(n.func, ast.Name) and n.func.id == "getattr" and len(n.args) == 2 \
+                        and isinstance(n.args[0], ast.Name) and n.args[0].id == "self" and not n.keywords:
+                    continue    # getattr(self, <name>): a method chosen by name - resolved over the method names the module writes as strings
                 if isinstance(n, ast.Call) and isinstance(n.func, ast.Name) and n.func.id in (
                         "eval", "exec", "getattr", "setattr", "__import__", "globals", "locals", "vars", "delattr"):
                     raise AnalysisError("unmodelled dynamic construct %s() at %s:%d" % (n.func.id, m.relpath, n.lineno))
